@@ -27,26 +27,40 @@ fn cz() -> Cmplx { Cmplx::new(z(), z()) }
 /// (1) the identity (both parts), (2) each h_i = 0 under the path condition, (3) m != 0 under the path condition,
 /// and (4) once, the abstract field step  G*M = 0 /\ M != 0 => G = 0.  Returns true when all of it is discharged.
 fn certificate(tag: &str, g: Cmplx, m: Cmplx, hyps: &[(Cmplx, Cmplx)]) -> bool {
-    let ok = |p: Proof| p == Proof::Solver || p == Proof::Syntactic;
+    if is_concrete() {
+        // concrete replay: the statement itself, on the actual numbers (same obligation group)
+        prove(&format!("{} :: concrete residual", tag), B::and(vec![eq(g.real, z()), eq(g.imag, z())]));
+        return true;
+    }
     let mut rhs = cz();
     for (h, c) in hyps { rhs = rhs + *c * *h; }
     let lhs = g * m;
-    let mut all = ok(prove_eq(&format!("{}: certificate identity (real part)", tag), lhs.real, rhs.real));
-    all &= ok(prove_eq(&format!("{}: certificate identity (imaginary part)", tag), lhs.imag, rhs.imag));
-    all &= hypotheses_and_factors(tag, hyps, &[m]);
-    all
+    let p1 = prove_eq(&format!("{} :: certificate identity (real part)", tag), lhs.real, rhs.real);
+    let p2 = prove_eq(&format!("{} :: certificate identity (imaginary part)", tag), lhs.imag, rhs.imag);
+    // a refuted piece already is a counterexample candidate: report "handled" so that the caller does not add the
+    // (expensive) direct query on top of it
+    if p1 == Proof::Failed || p2 == Proof::Failed { return true; }
+    let ok = |p: Proof| p == Proof::Solver || p == Proof::Syntactic;
+    ok(p1) && ok(p2) && hypotheses_and_factors(tag, hyps, &[m])
 }
 
 fn hypotheses_and_factors(tag: &str, hyps: &[(Cmplx, Cmplx)], factors: &[Cmplx]) -> bool {
     let ok = |p: Proof| p == Proof::Solver || p == Proof::Syntactic;
     let mut all = true;
+    let mut refuted = false;
     for (k, (h, _)) in hyps.iter().enumerate() {
-        all &= ok(prove(&format!("{}: hypothesis {} vanishes (real part)", tag, k), eq(h.real, z())));
-        all &= ok(prove(&format!("{}: hypothesis {} vanishes (imaginary part)", tag, k), eq(h.imag, z())));
+        for (part, t) in [("real", h.real), ("imaginary", h.imag)] {
+            let p = prove(&format!("{} :: hypothesis {} vanishes ({} part)", tag, k, part), eq(t, z()));
+            refuted |= p == Proof::Failed;
+            all &= ok(p);
+        }
     }
     for (k, m) in factors.iter().enumerate() {
-        all &= ok(prove(&format!("{}: multiplier factor {} is nonzero", tag, k), B::or(vec![ne(m.real, z()), ne(m.imag, z())])));
+        let p = prove(&format!("{} :: multiplier factor {} is nonzero", tag, k), B::or(vec![ne(m.real, z()), ne(m.imag, z())]));
+        refuted |= p == Proof::Failed;
+        all &= ok(p);
     }
+    if refuted { return true; }
     // the field step, on abstract values
     let (gr, gi, mr, mi) = (Sym::var("G.re"), Sym::var("G.im"), Sym::var("M.re"), Sym::var("M.im"));
     let step = B::implies(B::and(vec![eq(gr * mr - gi * mi, z()), eq(gr * mi + gi * mr, z()), B::or(vec![ne(mr, z()), ne(mi, z())])]), B::and(vec![eq(gr, z()), eq(gi, z())]));
@@ -105,6 +119,16 @@ pub fn body(inst: &str) {
             match catch(run) {
                 Ok(r) => {
                     prove(&format!("exactly {} values are returned", deg), if r.size() == deg { B::True } else { B::False });
+                    if is_concrete() {
+                        // concrete replay (the real Laguerre iteration runs): every returned value must be a root of p
+                        for j in 0..r.size().min(deg) {
+                            let mut g = cz();
+                            let mut pw = Cmplx::new(Sym::lit(1.0), z());
+                            for c in &coeffs { g = g + *c * pw; pw = pw * r[j]; }
+                            prove(&format!("degree {} root found by call {} :: concrete residual", deg, deg - 1 - j), B::and(vec![eq(g.real, z()), eq(g.imag, z())]));
+                        }
+                        return;
+                    }
                     let calls = poly_stub_calls();
                     let expect_calls = if refine { 2 * deg } else { deg };
                     prove(&format!("one root-finder call per root{} (made {})", if refine { " plus one polishing call each" } else { "" }, calls.len()), if calls.len() == expect_calls { B::True } else { B::False });
@@ -208,6 +232,17 @@ pub fn body(inst: &str) {
 /// Degree 3: decide p(x_k) = 0 for the three returned values on the current path.
 fn cubic_paths(coeffs: &[Cmplx], roots: &[Cmplx; 3]) {
     let (a, b, c, d) = (coeffs[3], coeffs[2], coeffs[1], coeffs[0]);
+    if is_concrete() {
+        // concrete replay (stubs are off, the real sqrt/pow run): the statement itself, in both obligation groups
+        for k in 0..3 {
+            let w = roots[k];
+            let g = a * w * w * w + b * w * w + c * w + d;
+            let res = B::and(vec![eq(g.real, z()), eq(g.imag, z())]);
+            prove(&format!("cubic (Cardano) root {} :: concrete residual", k), res.clone());
+            prove(&format!("cubic (triple-root branch) root {} :: concrete residual", k), res);
+        }
+        return;
+    }
     let calls = stub_calls();
     let cbrt = calls.iter().find(|s| s.0 == "ccbrt");
     let n = |k: f64| Sym::lit(k);
